@@ -130,6 +130,8 @@ impl Shim {
         match kind.as_str() {
             "err1" => self.reply("(error \"x\")"),
             "err" => self.reply("(error \"line 7 column 12: unknown constant foo@1 (declared here)\")"),
+            // the comment character and a quoted-symbol bar inside the message string
+            "errsemi" => self.reply("(error \"resource limit exceeded; giving up |x;y| (retry later)\")"),
             "errlong" => {
                 let msg: String = (0..4096).map(|i| (b'a' + (i % 26) as u8) as char).collect();
                 self.reply(&format!("(error \"{}\")", msg));
